@@ -24,6 +24,9 @@ static struct {
     int ntok;
     int owner[MAXTOK];       /* client holding the token, -1: in the pool (or being pushed) */
     int push_done[MAXTOK];   /* the push of the token has returned */
+    uint64_t push_time[MAXTOK]; /* virtual time at which the latest push of the token was invoked / returned */
+    int far_waits;           /* this run uses waits with a deadline nobody should ever reach */
+    long far_waits_done;
     client C[MAXCL];
     int ncl;
     lin_op H[LIN_MAX_OPS];
@@ -79,6 +82,20 @@ static void got_token(client *c, lin_op *o, ABT_thread th, const char *api)
     S.popped++;
 }
 
+/* A wait with a deadline a million virtual seconds away can only end early: by a unit.  If it
+ * comes back with a unit when the deadline has passed, although that unit's push had returned
+ * ages before, the waiter slept through the push (the wake-up was lost) and was rescued by its
+ * time-out.  (No clock-jump faults in runs that use such waits.) */
+#define FAR_WAIT_NS 1000000000000000ULL
+static void far_wait_check(client *c, int t, uint64_t deadline, const char *api)
+{
+    uint64_t now = sim_now_ns();
+    S.far_waits_done++;
+    SIM_CHECK(!(now >= deadline && S.push_time[t] + FAR_WAIT_NS / 2 < deadline), "pool:slept-through-push",
+              "%s of client %d returned unit %d only when its deadline had passed (%.0f virtual seconds after the push of that unit had returned)", api, c->id, t,
+              (double)(now - S.push_time[t]) * 1e-9);
+}
+
 static int push_end(int arg)
 {
     /* RANDWS: creation-type contexts push to the head, everything else to the tail */
@@ -119,6 +136,7 @@ static void do_op(client *c, int op, int arg)
             o->tok[o->ntok++] = t;
             S.owner[t] = -1;
             S.pushed++;
+            S.push_time[t] = sim_now_ns(); /* from now on a waiter may receive it */
             if (op == O_LEGACY_PUSH) {
                 ABT_unit u;
                 ABT_OK(ABT_thread_get_unit(S.tok[t], &u));
@@ -130,6 +148,7 @@ static void do_op(client *c, int op, int arg)
             if (op != O_LEGACY_PUSH && (arg & 4))
                 o->end = LIN_TAIL; /* the plain variant uses the default context */
             S.push_done[t] = 1;
+            S.push_time[t] = sim_now_ns();
             hend(o);
             break;
         }
@@ -147,10 +166,13 @@ static void do_op(client *c, int op, int arg)
                 o->tok[o->ntok++] = t;
                 S.owner[t] = -1;
                 S.pushed++;
+                S.push_time[t] = sim_now_ns();
             }
             ABT_OK(ABT_pool_push_threads_ex(S.pool, ths, (size_t)k, pushctx));
-            for (int i = 0; i < k; i++)
+            for (int i = 0; i < k; i++) {
                 S.push_done[ts[i]] = 1;
+                S.push_time[ts[i]] = sim_now_ns();
+            }
             hend(o);
             break;
         }
@@ -194,10 +216,18 @@ static void do_op(client *c, int op, int arg)
             double secs = (double)sim_quantum_ns() * 1e-9 * (double)(3 + (arg >> 3) % 300);
             if ((arg >> 3) % 7 == 0)
                 secs = 0.0;
+            int far = S.far_waits && (arg >> 3) % 5 == 1;
+            uint64_t deadline = 0;
+            if (far) {
+                secs = FAR_WAIT_NS * 1e-9;
+                deadline = sim_now_ns() + FAR_WAIT_NS;
+            }
             ABT_thread th = ABT_THREAD_NULL;
             ABT_OK(ABT_pool_pop_wait_thread_ex(S.pool, &th, secs, popctx));
             if (th != ABT_THREAD_NULL) {
                 got_token(c, o, th, "pop_wait_thread");
+                if (far)
+                    far_wait_check(c, tok_index(th), deadline, "ABT_pool_pop_wait_thread");
                 S.waits_got++;
             } else
                 S.waits_empty++;
@@ -207,12 +237,20 @@ static void do_op(client *c, int op, int arg)
         case O_POPTW: {
             lin_op *o = hbegin(c, LIN_POP, LIN_HEAD, 1);
             double abst = (double)(sim_now_ns() + sim_quantum_ns() * (uint64_t)(3 + (arg >> 3) % 300)) * 1e-9;
+            int far = S.far_waits && (arg >> 3) % 5 == 1;
+            uint64_t deadline = 0;
+            if (far) {
+                deadline = sim_now_ns() + FAR_WAIT_NS;
+                abst = (double)deadline * 1e-9;
+            }
             ABT_unit u = ABT_UNIT_NULL;
             ABT_OK(ABT_pool_pop_timedwait(S.pool, &u, abst));
             if (u != ABT_UNIT_NULL) {
                 ABT_thread th;
                 ABT_OK(ABT_unit_get_thread(u, &th));
                 got_token(c, o, th, "pop_timedwait");
+                if (far)
+                    far_wait_check(c, tok_index(th), deadline, "ABT_pool_pop_timedwait");
                 S.waits_got++;
             } else
                 S.waits_empty++;
@@ -262,7 +300,8 @@ static void run_pool(int wait_heavy)
     memset(&S, 0, sizeof S);
     wl_env_swarm();
     ABT_OK(ABT_init(0, NULL));
-    sim_allow_faults((1u << SIM_F_COND_SPURIOUS) | (1u << SIM_F_NANOSLEEP_EARLY) | (1u << SIM_F_CLOCK_JUMP) | (1u << SIM_F_STALL) | (1u << SIM_F_SLOW_NODE) |
+    S.far_waits = wait_heavy && plan_bool();
+    sim_allow_faults((1u << SIM_F_COND_SPURIOUS) | (1u << SIM_F_NANOSLEEP_EARLY) | (S.far_waits ? 0 : (1u << SIM_F_CLOCK_JUMP)) | (1u << SIM_F_STALL) | (1u << SIM_F_SLOW_NODE) |
                      (1u << SIM_F_TARGET_DELAY));
     static const ABT_pool_kind kinds[] = { ABT_POOL_FIFO, ABT_POOL_FIFO_WAIT, ABT_POOL_RANDWS };
     static const ABT_pool_access accs[] = { ABT_POOL_ACCESS_PRIV, ABT_POOL_ACCESS_SPSC, ABT_POOL_ACCESS_MPSC, ABT_POOL_ACCESS_SPMC, ABT_POOL_ACCESS_MPMC };
@@ -270,6 +309,10 @@ static void run_pool(int wait_heavy)
     S.kind = (int)plan_n(3);
     S.access = (int)plan_n(10);
     S.access = S.access < 1 ? 0 : S.access < 2 ? 1 : S.access < 4 ? 2 : S.access < 6 ? 3 : 4;
+    /* far waits only where a wait is one sleep on a condition variable (FIFO_WAIT); the other
+     * kinds poll, and a poller that sleeps between two polls with a unit present is normal */
+    if (S.kind != 1)
+        S.far_waits = 0;
     ABT_OK(ABT_pool_create_basic(kinds[S.kind], accs[S.access], ABT_FALSE, &S.pool));
     ABT_OK(ABT_pool_create_basic(ABT_POOL_FIFO, ABT_POOL_ACCESS_MPMC, ABT_FALSE, &S.park));
     S.ntok = plan_range(1, sim_limit("tokens", 10));
@@ -348,8 +391,13 @@ static void run_pool(int wait_heavy)
         for (int i = 0; i < S.ncl; i++)
             S.C[i].simtid = sim_thread_create(client_main, &S.C[i]);
         for (int i = 0; i < S.ncl; i++) {
-            while (!S.C[i].done)
-                ABT_OK(ABT_thread_yield());
+            /* the clients are external threads working on a pool no stream serves and the
+             * primary stream has nothing to run, so the primary may simply block in the join
+             * (a yield-polling primary never looks idle, and virtual time could then not jump
+             * to the deadline of a far wait) */
+            if (!S.far_waits)
+                while (!S.C[i].done)
+                    ABT_OK(ABT_thread_yield());
             sim_thread_join(S.C[i].simtid);
         }
     }
@@ -388,6 +436,7 @@ static void run_pool(int wait_heavy)
     sim_count("pool.blocking_pop_got_unit", (uint64_t)S.waits_got);
     sim_count("pool.blocking_pop_empty", (uint64_t)S.waits_empty);
     sim_count("pool.removes_ok", (uint64_t)S.removes_ok);
+    sim_count("pool.far_waits_that_got_a_unit", (uint64_t)S.far_waits_done);
     sim_count("pool.removes_refused_unit_gone", (uint64_t)S.removes_refused);
     /* drain, then let every token run so that it can be freed */
     for (;;) {
